@@ -96,10 +96,12 @@ def _worker_init(base):
     sys.stdout = ops.SINK
 
 
-def _run_chunk(pid, base_seed, idxs, tier):
+def _run_chunk_inner(pid, base_seed, idxs, tier):
     prop = load_prop(pid)
     faulthandler.dump_traceback_later(1500, exit=True)
     res = []
+    done_scs = []
+    with_prefix = 0
     try:
         for i in idxs:
             seed = seed_for(base_seed, i)
@@ -114,10 +116,24 @@ def _run_chunk(pid, base_seed, idxs, tier):
             out["seed"] = seed
             if out["violations"] or out.get("harness_error") or (i % 97 == 0):
                 out["scenario"] = sc
+            if out["violations"] and with_prefix < 2 and done_scs:
+                # what ran before it in this process: needed if the violation depends on process history
+                out["prefix_scenarios"] = list(done_scs)
+                with_prefix += 1
+            done_scs.append(sc)
             res.append(out)
     finally:
         faulthandler.cancel_dump_traceback_later()
     return res
+
+
+def _run_chunk(pid, base_seed, idxs, tier):
+    """Pool task.  The worker itself never touches csvpath beyond importing it:
+    each chunk runs in a child forked from the pristine worker."""
+    from .forkutil import fork_call
+
+    load_prop(pid)  # import (and with it csvpath) once, in the zygote
+    return fork_call(_run_chunk_inner, pid, base_seed, idxs, tier)
 
 
 # --------------------------------------------------------------------------
@@ -204,14 +220,54 @@ def shrink(prop, sc, clause, findings=(), budget_s=60, log=None):
 # --------------------------------------------------------------------------
 
 
-def write_replay(pid, seed, sc, v, tag=""):
+def write_replay(pid, seed, sc, v, tag="", prefix=None):
     d = os.path.join(VERIF, "replays")
     os.makedirs(d, exist_ok=True)
     name = f"{pid}-{seed}-{v['clause']}{tag}.json"
     p = os.path.join(d, name)
+    doc = {"property": pid, "seed": seed, "clause": v["clause"], "detail": v.get("detail"), "facts": v.get("facts", {}), "scenario": sc}
+    if prefix:
+        doc["prefix_scenarios"] = prefix
+        doc["note"] = "the violation depends on process history: prefix_scenarios are executed first, in the same process, then scenario"
     with open(p, "w", encoding="utf-8") as f:
-        json.dump({"property": pid, "seed": seed, "clause": v["clause"], "detail": v.get("detail"), "facts": v.get("facts", {}), "scenario": sc}, f, indent=1, sort_keys=True)
+        json.dump(doc, f, indent=1, sort_keys=True)
     return p
+
+
+def confirm_with_history(pid, seed, sc, v, prefix, budget_s=120, log=None):
+    """The violation did not reproduce from a pristine process.  Try with the
+    scenarios that ran before it in its worker process, then minimise that
+    prefix (each attempt in a fresh interpreter)."""
+    from .props.common import drop_each
+
+    t0 = time.time()
+    path = write_replay(pid, seed, sc, v, tag="-history", prefix=prefix)
+    ok, tail = confirm_in_fresh_interpreter(path)
+    if not ok:
+        return None, tail
+    cur = prefix
+    tried = 0
+    progress = True
+    while progress and len(cur) > 1 and time.time() - t0 < budget_s:
+        progress = False
+        for cand in drop_each(cur, 1):
+            if time.time() - t0 >= budget_s:
+                break
+            tried += 1
+            tmp = write_replay(pid, seed, sc, v, tag="-history-try", prefix=cand)
+            ok2, _ = confirm_in_fresh_interpreter(tmp)
+            if ok2:
+                cur = cand
+                progress = True
+                break
+    try:
+        os.remove(os.path.join(VERIF, "replays", f"{pid}-{seed}-{v['clause']}-history-try.json"))
+    except OSError:
+        pass
+    path = write_replay(pid, seed, sc, v, tag="-history", prefix=cur)
+    if log:
+        log(f"history replay: prefix minimised from {len(prefix)} to {len(cur)} earlier scenario(s), {tried} fresh-interpreter attempts, {time.time() - t0:.1f}s")
+    return path, ""
 
 
 def replay_file(path, quiet=False):
@@ -219,6 +275,9 @@ def replay_file(path, quiet=False):
         rp = json.load(f)
     pid = rp["property"]
     prop = load_prop(pid)
+    for psc in rp.get("prefix_scenarios") or []:
+        # process history: scenarios that ran earlier in the same process
+        execute_guarded(prop, psc)
     out = execute_guarded(prop, rp["scenario"])
     if out.get("harness_error"):
         print("HARNESS-ERROR during replay:\n" + out["harness_error"], file=sys.__stdout__)
@@ -324,6 +383,7 @@ def run_check(pid, tier="quick", base_seed=0, n=None, workers=None, wall_cap=Non
         "extra": {},
     }
     violations = []  # (seed, i, scenario, violation)
+    prefixes = {}  # seed -> scenarios that ran before it in its process
     harness_errors = []
     digests = {}
 
@@ -373,6 +433,8 @@ def run_check(pid, tier="quick", base_seed=0, n=None, workers=None, wall_cap=Non
                         agg["known"][k] = agg["known"].get(k, 0) + c
                     for v in unk:
                         violations.append((o["seed"], o["i"], o.get("scenario"), v))
+                    if unk and o.get("prefix_scenarios"):
+                        prefixes[o["seed"]] = o["prefix_scenarios"]
         except cf.TimeoutError:
             timed_out = True
             for fut in futs:
@@ -437,7 +499,27 @@ def run_check(pid, tier="quick", base_seed=0, n=None, workers=None, wall_cap=Non
                     confirmed = True
                     exit_code = 1
                     break
+                if seed in prefixes:
+                    hp, htail = confirm_with_history(pid, seed, sc, v, prefixes[seed], log=lambda m: say(f"[{pid}] {m}"))
+                    if hp:
+                        say(f"[{pid}] {clause}: {v.get('detail', '')[:400]} [only after earlier scenarios in the same process]")
+                        say(f"VIOLATION property={pid} replay={hp}")
+                        reported.append({"clause": clause, "seed": seed, "replay": hp, "detail": v.get("detail"), "count": len(items), "needs_process_history": True})
+                        confirmed = True
+                        exit_code = 1
+                        break
                 harness_errors.append((seed, f"violation {clause} seen in worker but not reproducible in a fresh interpreter:\n{tail2}"))
+            if not confirmed:
+                for seed, i, sc, v in [it for it in items if it[0] in prefixes and it[2] is not None][:2]:
+                    hp, htail = confirm_with_history(pid, seed, sc, v, prefixes[seed], log=lambda m: say(f"[{pid}] {m}"))
+                    if hp:
+                        say(f"[{pid}] {clause}: {v.get('detail', '')[:400]} [only after earlier scenarios in the same process]")
+                        say(f"VIOLATION property={pid} replay={hp}")
+                        reported.append({"clause": clause, "seed": seed, "replay": hp, "detail": v.get("detail"), "count": len(items), "needs_process_history": True})
+                        harness_errors[:] = [h for h in harness_errors if not (isinstance(h[1], str) and h[1].startswith(f"violation {clause} seen in worker"))]
+                        confirmed = True
+                        exit_code = 1
+                        break
             if not confirmed and exit_code == 0:
                 exit_code = 2
 
